@@ -721,8 +721,10 @@ fn build_reply(r: &HostileReply) -> (ResponseSpec, bool) {
     if r.chunked {
         spec.framing = RespFraming::Chunked(r.pieces.clone());
     } else if r.at % 8 == 5 {
-        // a declared length that has nothing to do with the body: up to the largest value hyper accepts
-        spec.framing = RespFraming::LengthDeclared([1u64 << 63, u64::MAX - 2, (1u64 << 63) + 5, 1_000_000_000_000_000, 1 << 40][r.len as usize % 5]);
+        // a declared length that has nothing to do with the body: above isize::MAX (reserving that much is a panic, which the hook
+        // sees) or 3 GB; lengths between, e.g. 2^40, make an allocation fail, which ABORTS the process: the worker would die
+        // without a report (inconclusive) instead of reporting the case
+        spec.framing = RespFraming::LengthDeclared([1u64 << 63, u64::MAX - 2, (1u64 << 63) + 5, (1u64 << 63) + (1 << 40), 3_000_000_000][r.len as usize % 5]);
     }
     spec.pieces = r.pieces.clone();
     spec.pause_us = r.pause_us;
